@@ -47,10 +47,28 @@ func Harness_C15_PeerKindTransparency() {
 	b.unsubscribe(actor.s, &wamp.Unsubscribe{Request: 2, Subscription: asub})
 	vSyncBroker(b)
 	actor.vDrain()
+	var seenEvents []*wamp.Event
 	for i, x := range o {
 		var topics []wamp.URI
 		for _, m := range x.s.vDrain() {
 			e, ok := m.(*wamp.Event)
+			if ok {
+				// every message object is delivered once: an in-process recipient
+				// may keep and modify its own, so nobody else gets the same one
+				// unless both are network peers (checked through a scribble below)
+				for _, prev := range seenEvents {
+					_, scribbled := prev.Details["scribbled-by-local-recipient"]
+					if prev == e {
+						vAssert("message-object-shared-only-between-network-peers", !scribbled && !x.s.client.IsLocal())
+					}
+				}
+				seenEvents = append(seenEvents, e)
+				if x.s.client.IsLocal() && e.Details != nil {
+					e.Details["scribbled-by-local-recipient"] = true
+				}
+				_, dirty := e.Details["scribbled-by-local-recipient"]
+				vAssert("no-recipient-sees-another-recipients-modifications", dirty == x.s.client.IsLocal())
+			}
 			vAssert("observer-gets-events-only", ok)
 			if !ok {
 				continue
